@@ -71,8 +71,12 @@ JOBS += [
     _api("crypt_r", "A_crypt_r", ["C04", "C05", "C07"], ["crypt_r"]),
     _api("crypt_ra", "A_crypt_ra", ["C04", "C05", "C07", "C14"], ["crypt_ra"]),
     _api("crypt_ra_alloc", "A_crypt_ra_alloc", ["C09", "C14", "C15"], ["crypt_ra"],
-         {"cbmc_flags": ["--memory-leak-check"],
+         {"cbmc_flags": ["--memory-leak-check"], "bound": "recorded size of an undersized block <= 64",
           "assumptions": ["realloc model: may fail; on success frees the old block and returns a fresh block with arbitrary contents"]}),
     _api("crypt_checksalt", "A_checksalt", ["C18", "C19"], ["crypt_checksalt"]),
     _api("crypt_preferred_method", "A_preferred", ["C18", "C19"], ["crypt_preferred_method"]),
+    _api("crypt_gensalt_rn", "A_gensalt_rn", ["C04", "C09", "C10", "C12", "C13", "C18", "C19"], ["crypt_gensalt_rn"],
+         {"cases": TABLE_CASES, "allow_no_body": ["crypt_"], "bound": "caller-supplied nrbytes <= 300"}),
+    _api("crypt_gensalt_ra", "A_gensalt_ra", ["C10", "C14", "C15"], ["crypt_gensalt_ra"],
+         {"replace_calls": ["crypt_gensalt_rn:crypt_gensalt_rn_stub"], "cbmc_flags": ["--memory-leak-check", "--malloc-may-fail", "--malloc-fail-null"]}),
 ]
